@@ -71,4 +71,18 @@ pub mod verif_sched {
         unsafe fn v_write(self, v: T) { yield_point("write"); self.write(v) }
         unsafe fn v_read(self) -> T { yield_point("read"); self.read() }
     }
+    pub trait VWeak<T> {
+        fn v_upgrade(&self) -> Option<std::sync::Arc<T>>;
+    }
+    impl<T> VWeak<T> for std::sync::Weak<T> {
+        fn v_upgrade(&self) -> Option<std::sync::Arc<T>> { yield_point("upgrade"); self.upgrade() }
+    }
+    pub fn v_try_unwrap<T>(a: std::sync::Arc<T>) -> Result<T, std::sync::Arc<T>> { yield_point("try_unwrap"); std::sync::Arc::try_unwrap(a) }
+    pub trait VCount { fn count(&self) -> usize; }
+    impl<T> VCount for std::sync::Arc<T> { fn count(&self) -> usize { std::sync::Arc::strong_count(self) } }
+    impl<T> VCount for std::sync::Weak<T> { fn count(&self) -> usize { std::sync::Weak::strong_count(self) } }
+    pub fn v_strong_count<C: VCount>(c: &C) -> usize { yield_point("strong_count"); c.count() }
+    pub trait VCountM { fn v_strong_count_m(&self) -> usize; }
+    impl<T> VCountM for std::sync::Arc<T> { fn v_strong_count_m(&self) -> usize { yield_point("strong_count"); std::sync::Arc::strong_count(self) } }
+    impl<T> VCountM for std::sync::Weak<T> { fn v_strong_count_m(&self) -> usize { yield_point("strong_count"); std::sync::Weak::strong_count(self) } }
 }
